@@ -439,8 +439,19 @@ func (vc *VC) dispatchCall2(st *State, call *ast.CallExpr, recv *Term, args []Te
 }
 
 func (vc *VC) externalValueOnly(fn *types.Func, call *ast.CallExpr) bool {
-	if recvTypeOf(fn) != nil || fn.Pkg() == nil || !noHeapPkgs[fn.Pkg().Path()] {
+	if fn.Pkg() == nil || !noHeapPkgs[fn.Pkg().Path()] {
 		return false
+	}
+	if rt := recvTypeOf(fn); rt != nil {
+		// a method of a type of such a package (atomic.Int64.Add, sync.WaitGroup.Done, ...) given
+		// only numbers and strings can write its receiver — an object of that package — and
+		// nothing else of the program; interface receivers may be implemented by anything
+		if isInterface(rt) {
+			return false
+		}
+		if !namedInPkg(rt, fn.Pkg().Path()) {
+			return false
+		}
 	}
 	if call.Ellipsis.IsValid() {
 		return false
@@ -965,6 +976,16 @@ func (vc *VC) bindAnchors(fi *FuncInfo, c *FuncContract) {
 				return true
 			}
 			txt = "recv:" + nodeText(vc.prog.Fset, x.X)
+		case *ast.RangeStmt:
+			// "iter:<v>" anchors the start of every iteration of "for ..., v := range ..." (the value
+			// variable, or the key variable when there is no value variable)
+			if id, ok := x.Value.(*ast.Ident); ok && id.Name != "_" {
+				txt = "iter:" + id.Name
+			} else if id, ok := x.Key.(*ast.Ident); ok && id.Name != "_" {
+				txt = "iter:" + id.Name
+			} else {
+				return true
+			}
 		case *ast.ReturnStmt:
 			// "return#k" anchors the k-th return statement (source order, closures included)
 			txt = "return"
